@@ -8,16 +8,28 @@
 //                                             m  MPIGuard guard(comm,false); guard.reactivate()
 //                                             a  guard.reactivate() on the existing guard   (new one if none)
 //                                        act  t  finalize(true)    d  finalize()    f  finalize(false)
-//                                             r  reactivate() as checkpoint (finalize + re-arm; never in the last section)
+//                                             r  reactivate() as checkpoint (finalize + re-arm)
 //                                             x  exception thrown inside the section (guard destroyed by unwinding)
 //                                             q  scope left without finalize (destructor of the armed guard)
+//       The end of the case must be matched in every communicator: a rank whose last call is a successful
+//       reactivate() holds an armed guard whose destructor enters one more collective, so either no member or every
+//       member of a communicator ends that way (last act r and nobody failed in the last section); other lines are
+//       rejected (bad-op) -- they are deadlocks by construction of the test case, not of the guard.
 //       communicator: def = MPIGuard(bool) [world], helper = MPIGuard(MPIHelper&) [world], mpicomm = MPIGuard(MPI_Comm)
 //       and cc = MPIGuard(Communication<MPI_Comm>) on the communicator obtained by splitting the world by colour,
 //       seq = MPIGuard(Communication<No_Comm>) (every rank on its own).
 //       answer per rank: one letter per section:  E MPIGuardError   - nothing   X the user's exception   ? other
 //
-//   fut <mpi|seq> <op> <void|int|vec|ref> <raw|erased> red=<sum|min|max> root=<r> vals=<v0/v1/...> : <step>;<step>;...
+//   fut <mpi|seq> <op> <void|int|vec|ref|bool> <wrap> red=<sum|min|max> root=<r> vals=<v0/v1/...> : <step>;<step>;...
 //       op = none (default constructed) ibarrier ibroadcast igather iscatter iallgather iallreduce iallreduce1 p2p
+//       type = payload: void, int (rvalue), vec = std::vector<int> (rvalue), ref = lvalue buffers (int& / std::vector<int>&,
+//              impl::Buffer<T&>), bool (rvalue; values 0/1, reduced with min/max)
+//       wrap = raw        the future returned by the operation, move constructed into a local
+//              assigned   move assigned into a default-constructed future of the same class (operator=(MPIFuture&&))
+//              erased     Dune::Future<R> holding it
+//              voidcast   Dune::Future<void> holding it (get() discards the payload, as mpi_collective_benchmark.cc does)
+//              movedfrom  Dune::Future<R> a(fut); Dune::Future<R> b(std::move(a)); the calls are made on a (null)
+//              null       Dune::Future<R>() (only with op none)
 //       step = one letter per rank: v valid()  y ready()  w wait()  g get()  s while(!ready());  - nothing
 //              c the environment completes the operation (the harness waits, through MPI_Request_get_status on the
 //                request handle, until MPI reports completion; the future is not touched)
@@ -350,6 +362,25 @@ static Dune::MPIGuard* makeGuard(const std::string& ctor, MPI_Comm comm, bool ac
 static bool failsAct(char a) { return a == 'f' || a == 'x' || a == 'q'; }
 static bool reachesAct(char a) { return a == 't' || a == 'd' || a == 'f' || a == 'r'; }
 
+// the end of a case is matched in every communicator (colour class): a member that ends with a successful reactivate()
+// (last act r, nobody of the communicator failed in the last section) owes one more collective (its destructor);
+// either no member or every member does
+static bool endMatched(const std::string& last, const std::vector<long>& eff) {
+  const int P = (int)eff.size();
+  for (int i = 0; i < P; ++i) {
+    bool failed = false;
+    int members = 0, rs = 0;
+    for (int j = 0; j < P; ++j)
+      if (eff[j] == eff[i]) {
+        ++members;
+        failed = failed || failsAct(last[2 * j + 1]);
+        rs += last[2 * j + 1] == 'r';
+      }
+    if (!failed && rs != 0 && rs != members) return false;
+  }
+  return true;
+}
+
 static Result execGuard(const std::string& ctor, const std::string& groups, const std::string& body) {
   static const std::string ctors[] = {"def", "helper", "mpicomm", "cc", "seq"};
   if (std::find(std::begin(ctors), std::end(ctors), ctor) == std::end(ctors)) return badOp();
@@ -369,11 +400,11 @@ static Result execGuard(const std::string& ctor, const std::string& groups, cons
       if (std::string("tdfrxq").find(s[2 * i + 1]) == std::string::npos) return badOp();
     }
   }
-  for (int i = 0; i < P; ++i) if (secs.back()[2 * i + 1] == 'r') return badOp();
 
   // effective colour = communicator membership
   std::vector<long> eff(P);
   for (int i = 0; i < P; ++i) eff[i] = ctor == "seq" ? i : (ctor == "def" || ctor == "helper") ? 0 : col[i];
+  if (!endMatched(secs.back(), eff)) return badOp();
   std::vector<int> members;
   for (int i = 0; i < P; ++i) if (eff[i] == eff[g_rank]) members.push_back(i);
   MPI_Comm comm = MPI_COMM_NULL;
@@ -390,6 +421,7 @@ static Result execGuard(const std::string& ctor, const std::string& groups, cons
   for (auto& s : secs) {
     const char arm = s[2 * g_rank], act = s[2 * g_rank + 1];
     char o = '?';
+    stat(std::string("guard_path_") + (guard ? (armed ? "armed" : "inactive") : "none") + "_" + arm + act);
     try {
       if (!(guard && armed)) {
         if (arm == 'n') { delete guard; guard = nullptr; guard = makeGuard(ctor, comm, true); }
@@ -421,7 +453,9 @@ static Result execGuard(const std::string& ctor, const std::string& groups, cons
     catch (std::exception&) { o = '?'; }
     catch (...) { o = '?'; }
     obs.push_back(o);
+    stat(std::string("guard_obs_") + (o == '-' ? "none" : std::string(1, o)));
   }
+  if (guard && armed) stat("guard_end_armed");
   try { delete guard; } catch (...) {}
   guard = nullptr;
   std::string dl = ip::guardEnd();
@@ -459,6 +493,7 @@ static Result execGuard(const std::string& ctor, const std::string& groups, cons
 static const int SENT = -777;
 
 static std::vector<int> toVec(const int& x) { return {x}; }
+static std::vector<int> toVec(const bool& x) { return {x ? 1 : 0}; }
 static std::vector<int> toVec(const std::vector<int>& v) { return v; }
 
 struct FutCase {
@@ -473,7 +508,7 @@ struct Expect {
   bool dontcare = false;     // payload not specified (igather on non-root, sequential iallgather)
   bool pseudo = false;
   std::vector<int> data;     // the data of the completed operation
-  const void* refTarget = nullptr;  // for T = int&: the object the reference must denote
+  const void* refTarget = nullptr;  // for lvalue payloads: the object the reference must denote
 };
 
 static int redOp(const std::string& r, int a, int b) {
@@ -488,9 +523,38 @@ static std::vector<int> reduceAll(const std::string& red, const std::vector<std:
   return acc;
 }
 
-// run this rank's letters on the future F (MPIFuture<..>, PseudoFuture<..> or the type-erased Dune::Future<..>)
+// the four calls of the future interface, on whatever object the case makes them (keeps runSteps out of the templates)
+struct IFut {
+  virtual ~IFut() {}
+  virtual bool valid() = 0;
+  virtual bool ready() = 0;
+  virtual void wait() = 0;
+  // false: get() returns void.  true: payload (and, for an lvalue result, the address of the object referred to)
+  virtual bool get(std::vector<int>& payload, const void*& addr) = 0;
+};
 template <class F>
-static Result runSteps(F& f, const FutCase& c, const Expect& ex) {
+struct Adapter : IFut {
+  F& f;
+  explicit Adapter(F& ff) : f(ff) {}
+  bool valid() override { return f.valid(); }
+  bool ready() override { return f.ready(); }
+  void wait() override { f.wait(); }
+  bool get(std::vector<int>& payload, const void*& addr) override {
+    using R = decltype(f.get());
+    if constexpr (std::is_void_v<R>) {
+      f.get();
+      return false;
+    } else {
+      R got = f.get();
+      payload = toVec(got);
+      if constexpr (std::is_lvalue_reference_v<R>) addr = (const void*)&got;
+      return true;
+    }
+  }
+};
+
+// run this rank's letters on the future
+static Result runSteps(IFut& f, const FutCase& c, const Expect& ex) {
   Result res;
   std::vector<std::string> out;
   std::string fail;
@@ -521,7 +585,7 @@ static Result runSteps(F& f, const FutCase& c, const Expect& ex) {
           bool v = f.valid();
           o = v ? "T" : "F";
           if (v == taken)
-            note(where + "valid() = " + o + (taken ? " although the result has been taken / the future was default constructed"
+            note(where + "valid() = " + o + (taken ? " although the result has been taken / the future was default constructed or moved from"
                                                    : " although the result has not been taken yet"));
           break;
         }
@@ -533,6 +597,7 @@ static Result runSteps(F& f, const FutCase& c, const Expect& ex) {
           bool r = f.ready();
           ip::pendingBudget = 0;
           o = r ? "T" : "F";
+          stat(std::string("fut_ready_") + (r ? "true" : "false") + (taken ? "_invalid" : known ? "_complete" : "_pending"));
           if (!taken) {
             if (known && !r) note(where + "ready() = false although the operation has completed");
             if (!known && r && ip::forced > before) note(where + "ready() = true although MPI_Test reported the operation as not complete");
@@ -557,6 +622,7 @@ static Result runSteps(F& f, const FutCase& c, const Expect& ex) {
         }
         case 'w': {
           interesting = true;
+          if (!taken) stat(completed || envComplete ? "fut_wait_complete" : "fut_wait_may_block");
           f.wait();
           o = "ok";
           if (taken) note(where + "wait() on an invalid future returned instead of throwing InvalidFutureException");
@@ -565,21 +631,19 @@ static Result runSteps(F& f, const FutCase& c, const Expect& ex) {
         }
         case 'g': {
           interesting = true;
-          using R = decltype(f.get());
-          if constexpr (std::is_void_v<R>) {
-            f.get();
+          if (!taken) stat(completed || envComplete ? "fut_get_complete" : "fut_get_may_block");
+          std::vector<int> g;
+          const void* addr = nullptr;
+          bool payload = f.get(g, addr);
+          if (!payload) {
             o = "ok";
             if (taken) note(where + "get() on an invalid future returned instead of throwing InvalidFutureException");
           } else {
-            R got = f.get();
-            std::vector<int> g = toVec(got);
             o = ex.dontcare ? "_" : listStr(g);
             if (taken) note(where + "get() on an invalid future returned " + listStr(g) + " instead of throwing InvalidFutureException");
             else if (!ex.dontcare && g != ex.data)
               note(where + "get() returned " + listStr(g) + " but the data of the completed operation is " + listStr(ex.data));
-            if constexpr (std::is_lvalue_reference_v<R>) {
-              if (!taken && ex.refTarget && (const void*)&got != ex.refTarget) note(where + "get() returned a reference to a different object");
-            }
+            if (!taken && addr && ex.refTarget && addr != ex.refTarget) note(where + "get() returned a reference to a different object");
           }
           taken = true;
           completed = true;
@@ -612,30 +676,77 @@ static Result runSteps(F& f, const FutCase& c, const Expect& ex) {
   return res;
 }
 
-// hand the future to runSteps, directly or through the type-erased Dune::Future<R>
+// can the class be default constructed and move assigned?  (MPIFuture<R,S> with a second buffer has no default
+// constructor, a reference payload cannot be default constructed)
+template <class F> struct CanAssign : std::false_type {};
+template <class R> struct CanAssign<Dune::MPIFuture<R, void>> : std::bool_constant<!std::is_reference_v<R>> {};
+template <class T> struct CanAssign<Dune::PseudoFuture<T>> : std::bool_constant<!std::is_reference_v<T>> {};
+
+static Result badOp();
+
+// hand the future to runSteps: directly, move assigned, or through the type-erased Dune::Future
 template <class F>
-static Result drive(F&& fut, const FutCase& c, const Expect& ex) {
+static Result drive(F&& fut, const FutCase& c, Expect ex) {
   using FT = std::decay_t<F>;
+  using R = decltype(std::declval<FT&>().get());
   if (c.wrap == "erased") {
-    using R = decltype(std::declval<FT&>().get());
     Dune::Future<R> ef(std::move(fut));
-    return runSteps(ef, c, ex);
+    Adapter<Dune::Future<R>> a(ef);
+    return runSteps(a, c, ex);
+  }
+  if (c.wrap == "voidcast") {
+    Dune::Future<void> ef(std::move(fut));
+    Adapter<Dune::Future<void>> a(ef);
+    return runSteps(a, c, ex);
+  }
+  if (c.wrap == "movedfrom") {
+    Dune::Future<R> from(std::move(fut));
+    Dune::Future<R> to(std::move(from));
+    Adapter<Dune::Future<R>> a(from);
+    ex.startsInvalid = true;
+    Result r = runSteps(a, c, ex);
+    bool ok = true;
+    try { ok = !from.valid() && (to.valid() || c.op == "none"); if (to.valid()) to.wait(); } catch (...) { ok = false; }
+    if (!ok && r.oracle.rfind("FAIL", 0) != 0) r.oracle = "FAIL after Future b(std::move(a)) either a is still valid or b is not";
+    return r;
+  }
+  if (c.wrap == "null") {
+    Dune::Future<R> ef;
+    Adapter<Dune::Future<R>> a(ef);
+    ex.startsInvalid = true;
+    return runSteps(a, c, ex);
+  }
+  if (c.wrap == "assigned") {
+    if constexpr (CanAssign<FT>::value) {
+      FT local;
+      local = std::move(fut);
+      Adapter<FT> a(local);
+      return runSteps(a, c, ex);
+    } else
+      return badOp();
   }
   FT local(std::move(fut));
-  return runSteps(local, c, ex);
+  Adapter<FT> a(local);
+  return runSteps(a, c, ex);
 }
 
 template <class Op>
 static Result futAllreduce(const FutCase& c, Expect ex, Dune::Communication<MPI_Comm>& cc) {
   const std::vector<int>& mine = c.vals[g_rank];
   ex.data = reduceAll(c.red, c.vals);
+  static int slot, outSlot;  // lvalue payloads
   if (c.op == "iallreduce") {
     if (c.type == "int") return drive(cc.template iallreduce<Op>(int(mine[0]), int(SENT)), c, ex);
-    return drive(cc.template iallreduce<Op>(std::vector<int>(mine), std::vector<int>(mine.size(), SENT)), c, ex);
+    if (c.type == "vec") return drive(cc.template iallreduce<Op>(std::vector<int>(mine), std::vector<int>(mine.size(), SENT)), c, ex);
+    slot = mine[0];
+    outSlot = SENT;
+    ex.refTarget = &outSlot;
+    Result r = drive(cc.template iallreduce<Op>(slot, outSlot), c, ex);  // MPIFuture<int&, int&>
+    if (r.oracle.rfind("ok", 0) == 0 && outSlot != ex.data[0]) r.oracle = "FAIL after completion the referenced object holds " + std::to_string(outSlot) + " instead of " + std::to_string(ex.data[0]);
+    return r;
   }
   if (c.type == "int") return drive(cc.template iallreduce<Op>(int(mine[0])), c, ex);
   if (c.type == "vec") return drive(cc.template iallreduce<Op>(std::vector<int>(mine)), c, ex);
-  static int slot;  // T = int&
   slot = mine[0];
   ex.refTarget = &slot;
   Result r = drive(cc.template iallreduce<Op>(slot), c, ex);
@@ -643,26 +754,50 @@ static Result futAllreduce(const FutCase& c, Expect ex, Dune::Communication<MPI_
   return r;
 }
 template <class Op>
+static Result futAllreduceBool(const FutCase& c, Expect ex, Dune::Communication<MPI_Comm>& cc) {
+  const bool mine = c.vals[g_rank][0] != 0;
+  ex.data = reduceAll(c.red, c.vals);
+  if (c.op == "iallreduce") return drive(cc.template iallreduce<Op>(bool(mine), bool(!mine)), c, ex);
+  return drive(cc.template iallreduce<Op>(bool(mine)), c, ex);
+}
+template <class Op>
 static Result futAllreduceSeq(const FutCase& c, Expect ex, Dune::Communication<Dune::No_Comm>& sc) {
   const std::vector<int>& mine = c.vals[g_rank];
   ex.data = mine;
+  if (c.type == "bool") {
+    const bool b = mine[0] != 0;
+    if (c.op == "iallreduce") return drive(sc.template iallreduce<Op>(bool(b), bool(!b)), c, ex);
+    return drive(sc.template iallreduce<Op>(bool(b)), c, ex);
+  }
   if (c.op == "iallreduce") {
     if (c.type == "int") return drive(sc.template iallreduce<Op>(int(mine[0]), int(SENT)), c, ex);
     return drive(sc.template iallreduce<Op>(std::vector<int>(mine), std::vector<int>(mine.size(), SENT)), c, ex);
   }
   if (c.type == "int") return drive(sc.template iallreduce<Op>(int(mine[0])), c, ex);
-  return drive(sc.template iallreduce<Op>(std::vector<int>(mine)), c, ex);
+  if (c.type == "vec") return drive(sc.template iallreduce<Op>(std::vector<int>(mine)), c, ex);
+  static int slot;  // PseudoFuture<int&>
+  slot = mine[0];
+  ex.refTarget = &slot;
+  return drive(sc.template iallreduce<Op>(slot), c, ex);
 }
 
-static bool allowed(const std::string& comm, const std::string& op, const std::string& ty) {
+static bool allowedType(const std::string& comm, const std::string& op, const std::string& ty) {
   auto in = [&](std::initializer_list<const char*> l) { for (auto x : l) if (ty == x) return true; return false; };
+  const bool mpi = comm == "mpi";
   if (op == "none") return in({"void", "int"});
   if (op == "ibarrier") return in({"void"});
-  if (op == "ibroadcast") return comm == "mpi" ? in({"int", "vec", "ref"}) : in({"int", "vec"});
-  if (op == "igather" || op == "iscatter" || op == "iallgather") return in({"int"});
-  if (op == "iallreduce") return in({"int", "vec"});
-  if (op == "iallreduce1") return comm == "mpi" ? in({"int", "vec", "ref"}) : in({"int", "vec"});
-  if (op == "p2p") return comm == "mpi" && in({"int", "vec"});
+  if (op == "ibroadcast") return in({"int", "vec", "ref", "bool"});
+  if (op == "igather" || op == "iscatter" || op == "iallgather") return mpi ? in({"int", "ref"}) : in({"int"});
+  if (op == "iallreduce") return mpi ? in({"int", "vec", "ref", "bool"}) : in({"int", "vec", "bool"});
+  if (op == "iallreduce1") return in({"int", "vec", "ref", "bool"});
+  if (op == "p2p") return mpi && in({"int", "vec", "bool"});
+  return false;
+}
+static bool allowedWrap(const std::string& comm, const std::string& op, const std::string& ty, const std::string& wrap) {
+  if (wrap == "raw" || wrap == "erased" || wrap == "voidcast" || wrap == "movedfrom") return true;
+  if (wrap == "null") return op == "none";
+  if (wrap == "assigned")
+    return ty != "ref" && (comm == "seq" || op == "none" || op == "ibarrier" || op == "ibroadcast" || op == "iallreduce1" || op == "p2p");
   return false;
 }
 
@@ -683,12 +818,13 @@ static Result execFut(const std::vector<std::string>& hdr, const std::string& bo
   } catch (...) { return badOp(); }
   const int P = (int)c.vals.size();
   if (P != g_size) return badOp();
-  if ((c.comm != "mpi" && c.comm != "seq") || (c.wrap != "raw" && c.wrap != "erased")) return badOp();
-  if (!allowed(c.comm, c.op, c.type) || c.root < 0 || c.root >= P) return badOp();
+  if (c.comm != "mpi" && c.comm != "seq") return badOp();
+  if (!allowedType(c.comm, c.op, c.type) || !allowedWrap(c.comm, c.op, c.type, c.wrap) || c.root < 0 || c.root >= P) return badOp();
   size_t l0 = c.vals[0].size();
   for (auto& v : c.vals) {
     if (c.type == "void") { if (!v.empty()) return badOp(); }
     else if (c.type == "vec") { if (v.size() != l0 || (c.op == "p2p" && l0 < 1)) return badOp(); }
+    else if (c.type == "bool") { if (v.size() != 1 || (v[0] != 0 && v[0] != 1) || c.red == "sum") return badOp(); }
     else if (v.size() != 1) return badOp();
   }
   for (auto& s : split(body, ';')) c.steps.push_back(stripSpaces(s));
@@ -708,6 +844,8 @@ static Result execFut(const std::vector<std::string>& hdr, const std::string& bo
   ip::pendingBudget = 0;
   Result r;
   auto firsts = [&] { std::vector<int> f; for (auto& v : c.vals) f.push_back(v[0]); return f; };
+  static int slot, outSlot;                 // lvalue payloads (type ref)
+  static std::vector<int> inVec, outVec;
 
   if (c.comm == "seq") {
     ex.pseudo = true;
@@ -720,7 +858,13 @@ static Result execFut(const std::vector<std::string>& hdr, const std::string& bo
     else if (c.op == "ibroadcast") {
       ex.data = mine;
       if (c.type == "int") r = drive(sc.ibroadcast(int(mine[0]), 0), c, ex);
-      else r = drive(sc.ibroadcast(std::vector<int>(mine), 0), c, ex);
+      else if (c.type == "bool") r = drive(sc.ibroadcast(bool(mine[0] != 0), 0), c, ex);
+      else if (c.type == "vec") r = drive(sc.ibroadcast(std::vector<int>(mine), 0), c, ex);
+      else {
+        slot = mine[0];
+        ex.refTarget = &slot;
+        r = drive(sc.ibroadcast(slot, 0), c, ex);  // PseudoFuture<int&>
+      }
     } else if (c.op == "igather") {
       ex.data = {mine[0]};
       r = drive(sc.igather(int(mine[0]), std::vector<int>(1, SENT), 0), c, ex);
@@ -730,6 +874,9 @@ static Result execFut(const std::vector<std::string>& hdr, const std::string& bo
     } else if (c.op == "iallgather") {
       ex.dontcare = true;  // the sequential iallgather's payload belongs to C07 (DESIGN.md section 6 #17)
       r = drive(sc.iallgather(int(mine[0]), std::vector<int>(1, SENT)), c, ex);
+    } else if (c.type == "bool") {
+      if (c.red == "min") r = futAllreduceSeq<Dune::Min<bool>>(c, ex, sc);
+      else r = futAllreduceSeq<Dune::Max<bool>>(c, ex, sc);
     } else if (c.red == "sum") r = futAllreduceSeq<std::plus<int>>(c, ex, sc);
     else if (c.red == "min") r = futAllreduceSeq<Dune::Min<int>>(c, ex, sc);
     else r = futAllreduceSeq<Dune::Max<int>>(c, ex, sc);
@@ -743,9 +890,9 @@ static Result execFut(const std::vector<std::string>& hdr, const std::string& bo
     else if (c.op == "ibroadcast") {
       ex.data = c.vals[c.root];
       if (c.type == "int") r = drive(cc.ibroadcast(int(mine[0]), c.root), c, ex);
+      else if (c.type == "bool") r = drive(cc.ibroadcast(bool(mine[0] != 0), c.root), c, ex);
       else if (c.type == "vec") r = drive(cc.ibroadcast(std::vector<int>(mine), c.root), c, ex);
       else {
-        static int slot;
         slot = mine[0];
         ex.refTarget = &slot;
         r = drive(cc.ibroadcast(slot, c.root), c, ex);
@@ -753,15 +900,39 @@ static Result execFut(const std::vector<std::string>& hdr, const std::string& bo
       }
     } else if (c.op == "igather") {
       if (g_rank == c.root) ex.data = firsts(); else ex.dontcare = true;
-      r = drive(cc.igather(int(mine[0]), std::vector<int>(g_rank == c.root ? P : 0, SENT), c.root), c, ex);
+      if (c.type == "int") r = drive(cc.igather(int(mine[0]), std::vector<int>(g_rank == c.root ? P : 0, SENT), c.root), c, ex);
+      else {
+        slot = mine[0];
+        outVec.assign(g_rank == c.root ? P : 0, SENT);
+        ex.refTarget = &outVec;
+        r = drive(cc.igather(slot, outVec, c.root), c, ex);  // MPIFuture<std::vector<int>&, int&>
+        if (r.oracle.rfind("ok", 0) == 0 && g_rank == c.root && outVec != ex.data) r.oracle = "FAIL after completion the referenced vector holds " + listStr(outVec) + " instead of " + listStr(ex.data);
+      }
     } else if (c.op == "iscatter") {
       ex.data = {mine[0]};
-      r = drive(cc.iscatter(g_rank == c.root ? firsts() : std::vector<int>(), int(SENT), c.root), c, ex);
+      if (c.type == "int") r = drive(cc.iscatter(g_rank == c.root ? firsts() : std::vector<int>(), int(SENT), c.root), c, ex);
+      else {
+        inVec = g_rank == c.root ? firsts() : std::vector<int>();
+        outSlot = SENT;
+        ex.refTarget = &outSlot;
+        r = drive(cc.iscatter(inVec, outSlot, c.root), c, ex);  // MPIFuture<int&, std::vector<int>&>
+        if (r.oracle.rfind("ok", 0) == 0 && outSlot != ex.data[0]) r.oracle = "FAIL after completion the referenced object holds " + std::to_string(outSlot) + " instead of " + std::to_string(ex.data[0]);
+      }
     } else if (c.op == "iallgather") {
       ex.data = firsts();
-      r = drive(cc.iallgather(int(mine[0]), std::vector<int>(P, SENT)), c, ex);
+      if (c.type == "int") r = drive(cc.iallgather(int(mine[0]), std::vector<int>(P, SENT)), c, ex);
+      else {
+        slot = mine[0];
+        outVec.assign(P, SENT);
+        ex.refTarget = &outVec;
+        r = drive(cc.iallgather(slot, outVec), c, ex);
+        if (r.oracle.rfind("ok", 0) == 0 && outVec != ex.data) r.oracle = "FAIL after completion the referenced vector holds " + listStr(outVec) + " instead of " + listStr(ex.data);
+      }
     } else if (c.op == "iallreduce" || c.op == "iallreduce1") {
-      if (c.red == "sum") r = futAllreduce<std::plus<int>>(c, ex, cc);
+      if (c.type == "bool") {
+        if (c.red == "min") r = futAllreduceBool<Dune::Min<bool>>(c, ex, cc);
+        else r = futAllreduceBool<Dune::Max<bool>>(c, ex, cc);
+      } else if (c.red == "sum") r = futAllreduce<std::plus<int>>(c, ex, cc);
       else if (c.red == "min") r = futAllreduce<Dune::Min<int>>(c, ex, cc);
       else r = futAllreduce<Dune::Max<int>>(c, ex, cc);
     } else {  // p2p: root sends to root+1
@@ -770,9 +941,11 @@ static Result execFut(const std::vector<std::string>& hdr, const std::string& bo
       if (P < 2 || (g_rank != c.root && g_rank != dst)) { r.impl = "idle"; r.oracle = "ok trivial"; }
       else if (g_rank == c.root) {
         if (c.type == "int") r = drive(cc.isend(int(ex.data[0]), dst, 19), c, ex);
+        else if (c.type == "bool") r = drive(cc.isend(bool(ex.data[0] != 0), dst, 19), c, ex);
         else r = drive(cc.isend(std::vector<int>(ex.data), dst, 19), c, ex);
       } else {
         if (c.type == "int") r = drive(cc.irecv(int(SENT), c.root, 19), c, ex);
+        else if (c.type == "bool") r = drive(cc.irecv(bool(ex.data[0] == 0), c.root, 19), c, ex);  // buffer starts with the wrong value
         else r = drive(cc.irecv(std::vector<int>(ex.data.size(), SENT), c.root, 19), c, ex);
       }
     }
@@ -807,8 +980,20 @@ static const std::vector<FutKind>& futKinds() {
       {"mpi", "p2p", "int"},         {"mpi", "p2p", "vec"},         {"mpi", "none", "void"},      {"mpi", "none", "int"},
       {"seq", "ibarrier", "void"},   {"seq", "ibroadcast", "int"},  {"seq", "ibroadcast", "vec"}, {"seq", "igather", "int"},
       {"seq", "iscatter", "int"},    {"seq", "iallgather", "int"},  {"seq", "iallreduce", "int"}, {"seq", "iallreduce", "vec"},
-      {"seq", "iallreduce1", "int"}, {"seq", "iallreduce1", "vec"}, {"seq", "none", "void"},      {"seq", "none", "int"}};
+      {"seq", "iallreduce1", "int"}, {"seq", "iallreduce1", "vec"}, {"seq", "none", "void"},      {"seq", "none", "int"},
+      // round two: bool payloads, lvalue buffers of the two-argument operations, PseudoFuture<int&>
+      {"mpi", "ibroadcast", "bool"}, {"mpi", "iallreduce", "bool"}, {"mpi", "iallreduce1", "bool"}, {"mpi", "p2p", "bool"},
+      {"mpi", "iallreduce", "ref"},  {"mpi", "igather", "ref"},     {"mpi", "iscatter", "ref"},    {"mpi", "iallgather", "ref"},
+      {"seq", "ibroadcast", "bool"}, {"seq", "iallreduce", "bool"}, {"seq", "iallreduce1", "bool"}, {"seq", "ibroadcast", "ref"},
+      {"seq", "iallreduce1", "ref"}};
   return k;
+}
+static const std::vector<std::string> kWraps = {"raw", "erased", "assigned", "voidcast", "movedfrom", "null"};
+// the wrappers that exist for a kind, in a fixed order
+static std::vector<std::string> wrapsOf(const FutKind& k) {
+  std::vector<std::string> w;
+  for (auto& x : kWraps) if (allowedWrap(k.comm, k.op, k.type, x)) w.push_back(x);
+  return w;
 }
 
 // all call sequences over `alpha` with length 1..maxLen, in order of length
@@ -831,7 +1016,7 @@ static std::string genVals(Rng& rng, const FutKind& k, int P, int& L) {
   for (int i = 0; i < P; ++i) {
     if (L == 0) { parts.push_back("_"); continue; }
     std::vector<long> v;
-    for (int j = 0; j < L; ++j) v.push_back(rng.coin(1, 3) ? rng.pick(edge) : rng.range(-50, 50));
+    for (int j = 0; j < L; ++j) v.push_back(ty == "bool" ? (long)rng.below(2) : rng.coin(1, 3) ? rng.pick(edge) : rng.range(-50, 50));
     parts.push_back(join(v.begin(), v.end(), ","));
   }
   return join(parts.begin(), parts.end(), "/");
@@ -840,9 +1025,9 @@ static std::string genVals(Rng& rng, const FutKind& k, int P, int& L) {
 static std::string futLine(Rng& rng, const FutKind& k, int P, const std::vector<std::string>& steps, const std::string& wrap) {
   int L;
   std::string vals = genVals(rng, k, P, L);
-  static const std::vector<std::string> reds = {"sum", "min", "max"};
+  static const std::vector<std::string> reds = {"sum", "min", "max"}, redsBool = {"min", "max"};
   std::ostringstream os;
-  os << "fut " << k.comm << " " << k.op << " " << k.type << " " << wrap << " red=" << rng.pick(reds) << " root=" << rng.below(P)
+  os << "fut " << k.comm << " " << k.op << " " << k.type << " " << wrap << " red=" << rng.pick(std::string(k.type) == "bool" ? redsBool : reds) << " root=" << rng.below(P)
      << " vals=" << vals << " : " << join(steps.begin(), steps.end(), ";");
   return os.str();
 }
@@ -854,10 +1039,33 @@ static std::string randomSection(Rng& rng, int P, bool last, int failPct) {
     char act;
     if ((int)rng.below(100) < failPct) act = "fxq"[rng.below(100) < 45 ? 0 : rng.below(100) < 65 ? 1 : 2];
     else act = "tdr"[rng.below(100) < 55 ? 0 : rng.below(100) < 40 ? 1 : 2];
-    if (last && act == 'r') act = 't';
+    (void)last;  // the caller makes the end matched (matchEnd)
     s.push_back(act);
   }
   return s;
+}
+// make the end of a case matched (see endMatched): per communicator either nobody or everybody ends with a successful reactivate()
+static void matchEnd(Rng& rng, std::string& last, const std::vector<long>& eff) {
+  const int P = (int)eff.size();
+  for (int guard = 0; guard < 2 * P && !endMatched(last, eff); ++guard)
+    for (int i = 0; i < P; ++i) {
+      bool failed = false;
+      int members = 0, rs = 0;
+      for (int j = 0; j < P; ++j)
+        if (eff[j] == eff[i]) { ++members; failed = failed || failsAct(last[2 * j + 1]); rs += last[2 * j + 1] == 'r'; }
+      if (failed || rs == 0 || rs == members) continue;
+      const bool all = rng.coin();
+      for (int j = 0; j < P; ++j)
+        if (eff[j] == eff[i]) {
+          if (all) last[2 * j + 1] = 'r';
+          else if (last[2 * j + 1] == 'r') last[2 * j + 1] = 't';
+        }
+    }
+}
+static std::vector<long> effOf(const std::string& ctor, const std::vector<long>& col) {
+  std::vector<long> eff(col.size());
+  for (size_t i = 0; i < col.size(); ++i) eff[i] = ctor == "seq" ? (long)i : (ctor == "def" || ctor == "helper") ? 0 : col[i];
+  return eff;
 }
 static std::string randomGroups(Rng& rng, int P, const std::string& ctor) {
   std::vector<long> col(P, 0);
